@@ -19,6 +19,7 @@ _real_float = builtins.float
 _real_round = builtins.round
 _real_hash = builtins.hash
 _real_abs = builtins.abs
+_math_sqrt = _math.sqrt        # captured before symgeo.shims patches the math module
 
 
 getcontext().prec = 90
@@ -559,7 +560,7 @@ class Engine:
         elif k == 'sqrt':
             iv = self.ival(v['info'])
             if iv is not None and iv[1] >= 0:
-                r = (_math.sqrt(max(iv[0], 0.0)) * (1 - 1e-12), _math.sqrt(iv[1]) * (1 + 1e-12) + 1e-300)
+                r = (_math_sqrt(max(iv[0], 0.0)) * (1 - 1e-12), _math_sqrt(iv[1]) * (1 + 1e-12) + 1e-300)
         elif k == 'isqrt':
             iv = self.var_ival(v['info'])
             if iv is not None and iv[0] > 0:
@@ -1425,7 +1426,6 @@ def sym_sqrt(x, force_atom=False):
     return SymNum(Poly.var(vid))
 
 
-_math_sqrt = _math.sqrt
 
 
 # ----------------------------------------------------------------------------- formula helpers
